@@ -181,7 +181,7 @@ trivial = no radial; distinct = distinct (elevation runs, radial count, record c
         "RPG header bytes are zero as in real Archive II data; 16-bit moments compared as raw bytes (C07 owns their values)".into(),
     ];
     ctx.floor_evaluations = 100;
-    let total: u64 = ctx.tier.pick(1_200, 60_000);
+    let total: u64 = ctx.tier.pick(4_000, 60_000);
     let seed = ctx.seed;
     let thorough = ctx.tier == crate::ev::Tier::Thorough;
     par_cases(ctx, total, |i, obs| {
